@@ -46,6 +46,17 @@ CLAIMED = {
             'instances must raise or return a well-formed file.',
             'canonical form merges only states with equal futures (DESIGN 2.2); domain predicate per operation is '
             'computed from the state structure (DESIGN 3.1, convention-file restrictions in section 7)', 'DESIGN.md section 4 C01'),
+    'C05': ('B', 'model_checking',
+            'explicit-state BFS with deep before/after snapshots and write-through probes, plus exhaustive open/close/drop/gc schedule enumeration on real netCDF handles',
+            '(a,b) the C01 breadth-first search (depth 2 quick / 3 thorough) with a query menu (repr, dump, save, '
+            'val2idx x3, getTimes x2): a deep hash of the receiver (raw buffers incl. bytes under masks, masks, fill '
+            'values, attributes, dimensions, order) is compared before/after every call and again after every '
+            'variable of the result has been overwritten with sentinels. (c) every event sequence of length 6/5 '
+            '(quick) or 8/6 (thorough) over 2/3 disk files with events open, close (repeatable), drop-reference, gc, '
+            'for the netcdf, ioapi and auto-detected readers, is executed on the real C library; after every event '
+            'each file the reference model says is open must return its own data.',
+            'automatic GC disabled, gc is an explicit event; numpy lazily casts fill values (compared after casting '
+            'to the variable dtype); IOAPI wall-clock stamps excluded', 'DESIGN.md section 4 C05'),
 }
 
 PENDING_REASON = ('check not built yet in this session; planned per DESIGN.md section 4 '
@@ -58,6 +69,7 @@ def main():
     na = []
     for p in props:
         pid = p['id']
+        eng_extra = {'C05': 'engine-B+engine-C'}
         if pid in CLAIMED and os.path.exists(os.path.join(ROOT, 'mc', 'props', pid.lower() + '.py')):
             eng, cat, tech, text, note, ref = CLAIMED[pid]
             checks.append({
